@@ -54,16 +54,49 @@ theorem subshell_errexit (fuel : Nat) (s : St) (body : List Item)
   obtain ⟨c1, r⟩ := x
   cases r <;> simp_all
 
-/-- a multi-command pipeline is subject to errexit with the pipeline's status -/
+/-- the members of a pipeline run on copies: the parent's option is what it was -/
+theorem members_errexit : ∀ (fuel : Nat) (s : St) (cs : List Cmd) (f : Nat),
+    (execPipeMembers fuel s cs f).1.errexit = s.errexit := by
+  intro fuel
+  induction fuel with
+  | zero => intro s cs f; simp [execPipeMembers]
+  | succ n ih =>
+    intro s cs f
+    cases cs with
+    | nil => simp [execPipeMembers]
+    | cons c rest =>
+      simp only [execPipeMembers]
+      generalize execCmd n (s.push .subshell) c = x
+      obtain ⟨c1, r⟩ := x
+      cases r <;> simp [ih]
+
+/-- a multi-command pipeline is subject to errexit with the pipeline's status — and the check is the
+    parent shell's own, with or without job control (under `set -m` the members run inside one more
+    subshell, `enterJc`, whose status comes back before the check) -/
 theorem pipeline_errexit (fuel : Nat) (s : St) (c d : Cmd) (rest : List Cmd)
-    (hr : (execPipeMembers fuel s (c :: d :: rest) 0).2 = .continue_) :
-    (execCommands (fuel+1) s (c :: d :: rest)).2 = (execPipeMembers fuel s (c :: d :: rest) 0).1.applyErrexit := by
+    (hr : (execPipeMembers fuel s.enterJc (c :: d :: rest) 0).2 = .continue_) :
+    (execCommands (fuel+1) s (c :: d :: rest)).2 = (execCommands (fuel+1) s (c :: d :: rest)).1.applyErrexit ∧
+    (execCommands (fuel+1) s (c :: d :: rest)).1.status =
+      (execPipeMembers fuel s.enterJc (c :: d :: rest) 0).1.status ∧
+    (execCommands (fuel+1) s (c :: d :: rest)).1.errexit = s.errexit := by
   simp only [execCommands]
-  generalize execPipeMembers fuel s (c :: d :: rest) 0 = x at *
+  have hm := members_errexit fuel s.enterJc (c :: d :: rest) 0
+  generalize execPipeMembers fuel s.enterJc (c :: d :: rest) 0 = x at *
   obtain ⟨s1, r⟩ := x
-  simp only at hr
+  simp only at hr hm
   subst hr
-  rfl
+  have h1 : (s.leaveJc s1).status = s1.status := by unfold St.leaveJc; cases s.controlsJobs <;> rfl
+  have h2 : (s.leaveJc s1).errexit = s1.errexit := by unfold St.leaveJc; cases s.controlsJobs <;> rfl
+  have h3 : s.enterJc.errexit = s.errexit := by unfold St.enterJc; cases s.controlsJobs <;> rfl
+  exact ⟨rfl, h1, by rw [h2, hm, h3]⟩
+
+/-- job control changes nothing the pipeline's members can see of the loop/condition context -/
+theorem job_control_wrapper_invisible (s : St) :
+    loops s.enterJc.stack = 0 ∨ s.enterJc = s :=  by
+  unfold St.enterJc
+  split
+  · left; simp [St.push, loops]
+  · right; rfl
 
 /-! ### ★ condition_contexts: errexit is irrelevant wherever a `Condition` frame is on the stack -/
 
